@@ -10,6 +10,7 @@ import (
 	"fmt"
 	"sort"
 	"strings"
+	"sync"
 	"testing"
 
 	"pgregory.net/rapid"
@@ -447,6 +448,57 @@ func TestC16(t *testing.T) {
 		}
 		if id2 == id {
 			failf(rt, "different dialogs, same identity %q:\n%+v\n%+v", id, a, b)
+		}
+	})
+
+	// The identity is a function of the message alone - also when several
+	// listeners' loops compute identities at the same time: eight goroutines
+	// attribute their own messages over and over and compare with the identity
+	// computed beforehand, sequentially.
+	t.Run("parallel", func(t *testing.T) {
+		if (V.replay && V.only == "") || V.ViolationCount() > 0 {
+			return
+		}
+		const workers = 8
+		type item struct{ text, id string }
+		sets := make([][]item, workers)
+		for w := 0; w < workers; w++ {
+			for k := 0; k < 6; k++ {
+				a := c16Asg{CallID: fmt.Sprintf("par-%d-%d@host.test", w, k), TagF: fmt.Sprintf("f%d%d", w, k), TagT: fmt.Sprintf("t%d-%d", k, w),
+					UriF: fmt.Sprintf("sip:user%d@worker%d.example.com:%d", k, w, 5060+w), UriT: []string{"sip:callee@pbx.example.org", "tel:+1555000" + fmt.Sprint(w), "sip:h" + fmt.Sprint(k) + ".example.net"}[k%3]}
+				text := c16Render(a, c16Style{Display: k % 3, UriParams: k%2 == 0, ParamPost: k%2 == 1, Swap: k%2 == 1, Response: k%3 == 0})
+				id, err := c16ProductID(text)
+				if err != nil || id == "" {
+					V.Violation(t, "", text, "no dialog identity for a message with both tags: %v", err)
+					return
+				}
+				sets[w] = append(sets[w], item{text, id})
+			}
+		}
+		var wg sync.WaitGroup
+		fails := make([]string, workers)
+		rounds := V.N(1500, 20000)
+		for w := 0; w < workers; w++ {
+			wg.Add(1)
+			go func(w int) {
+				defer wg.Done()
+				for i := 0; i < rounds && fails[w] == ""; i++ {
+					it := sets[w][i%len(sets[w])]
+					id, err := c16ProductID(it.text)
+					if err != nil || id != it.id {
+						fails[w] = fmt.Sprintf("while %d goroutines computed dialog identities in parallel, the message\n%s\ngot identity %q (error %v); computed alone it has %q", workers, jsonBytes([]byte(it.text)), id, err, it.id)
+					}
+				}
+			}(w)
+		}
+		wg.Wait()
+		V.EvalN(workers * rounds)
+		V.Class("identities computed by 8 goroutines in parallel")
+		for _, f := range fails {
+			if f != "" {
+				V.Violation(t, "", nil, "%s", f)
+				return
+			}
 		}
 	})
 }
